@@ -243,6 +243,9 @@ def corpus():
     add("reexport-cycle", {"target.py": "from a import f\ndef g(x):\n    return f(x)\n", "a.py": "from b import f\n", "b.py": "from a import f\n"})
     add("toml-invalid-value", {"target.py": F1, "pyproject.toml": "[tool.rattr]\nthreshold = 'x'\n"})
     add("toml-syntax-error", {"target.py": F1, "pyproject.toml": "[tool.rattr\n"})
+    add("toml-bool-for-int", {"target.py": F1, "pyproject.toml": "[tool.rattr]\nthreshold = false\n"})
+    add("toml-bool-for-follow", {"target.py": F1, "pyproject.toml": "[tool.rattr]\nfollow-imports = false\n"})
+    add("cache-not-utf8", {"target.py": F1, "c.json": {"hex": "fffe00"}}, ["-C", "c.json"])
     add("cache-null", {"target.py": F1, "c.json": "null"}, ["-C", "c.json"])
     add("cache-wrong-shape", {"target.py": F1, "c.json": '{"imports": [{"filepath": 1}]}'}, ["-C", "c.json"])
     add("cache-not-json", {"target.py": F1, "c.json": "{not json"}, ["-C", "c.json"])
